@@ -335,10 +335,14 @@ PROPS["C16"] = dict(
           "_is_trial_promotable_to_next_rung: a value no competing value beats is promotable. "
           "HyperbandPruner._get_bracket_id: result is the bracket whose budget interval contains "
           "crc32(study_name_number) mod total budget -- a function of name and number only -- and the method is pure (empty frame). "
+          "SuccessiveHalvingPruner.prune (rung loop, partial correctness): True implies the step reached a rung "
+          "(step >= min_resource * reduction_factor**e for some e >= min_early_stopping_rate), and without bootstrap a non-NaN value "
+          "that beats every value recorded at any rung by the listed trials is never pruned; helpers _get_current_rung, "
+          "_get_competing_values, _estimate_min_resource under their own contracts. HyperbandPruner.prune: a True decision is the "
+          "decision of the successive-halving pruner of the trial's OWN bracket, hence never before a rung of that bracket. "
           "Discharged by z3 for all histories.",
     note="numpy-lite library contracts (nanmin/nanmax/nanpercentile/asarray/sort: order and rank facts only); Study.get_trials "
-         "assumed; SuccessiveHalvingPruner.prune's rung loop and Hyperband's delegation to bracket pruners are not under contract; "
-         "Wilcoxon not covered",
+         "assumed; Hyperband initialisation and the bracket-study view are assumed contracts; Wilcoxon not covered",
     assumptions=LIB_ASSUMPTIONS + ["np.nanmin/nanmax return the value of an entry no non-NaN entry beats (NaN iff all NaN); "
                                    "np.nanpercentile lies between the smallest and largest non-NaN entry",
                                    "Study.get_trials(states=S) returns exactly the trials with state in S (AS)",
@@ -347,8 +351,8 @@ PROPS["C16"] = dict(
                                    "j-th output has exactly j input elements below it (count_less rank fact)",
                                    "binascii.crc32 and str.format are deterministic functions of their arguments",
                                    "the wrapped pruner of PatientPruner is an arbitrary pure decision function of (pruner, study, trial)"],
-    not_covered=["WilcoxonPruner (scipy)", "SuccessiveHalvingPruner.prune rung loop; HyperbandPruner.prune delegation and "
-                 "_BracketStudy filtering"],
+    not_covered=["WilcoxonPruner (scipy)", "HyperbandPruner._try_initialization (log/ceil arithmetic) and _BracketStudy filtering "
+                 "(assumed contracts)", "termination of the rung loops (partial correctness only)"],
 )
 
 PROPS["C13"] = dict(
